@@ -69,12 +69,15 @@ WellFormed(ev) == /\ ~Has(ev, "panic")
                   /\ Shaped(ev, ev.conj) /\ Shaped(ev, ev.ldr) /\ Shaped(ev, ev.udr)
                   /\ GsIncreasing(ev) /\ Len(ev.dec) > 0
 
+\* (printed as a JSON string: TLC wraps long tuples over several lines)
 \* prints one line per contradicted clause with a witness position; TRUE iff the event is explained
 Explains(ev) ==
-  IF ~WellFormed(ev) THEN PrintT(<<"REJECTED", l, "event not well formed or call panicked", <<>>, 0>>) /\ FALSE
+  IF ~WellFormed(ev) THEN PrintT(<<"REJECTED", ToJson([l |-> l, clause |-> "event not well formed or call panicked",
+                                                        pos |-> <<>>, count |-> 0])>>) /\ FALSE
   ELSE LET cs == Clauses(ev)
            bad == {i \in 1..Len(cs) : cs[i][2] # {}}
-       IN /\ \A i \in bad : PrintT(<<"REJECTED", l, cs[i][1], CHOOSE w \in cs[i][2] : TRUE, Cardinality(cs[i][2])>>)
+       IN /\ \A i \in bad : PrintT(<<"REJECTED", ToJson([l |-> l, clause |-> cs[i][1], pos |-> CHOOSE w \in cs[i][2] : TRUE,
+                                                            count |-> Cardinality(cs[i][2])])>>)
           /\ bad = {}
 
 Init == l = 1
